@@ -266,6 +266,14 @@ func c13Body(d c13Desc) func() {
 				})
 				vsched.Yield("wait-serving", "H", func() bool { return ll.Blocked() })
 				serving = true
+			case op == "bindonly":
+				// Bind without a serving call behind it (and possibly a Shutdown): nothing listens for clients, the
+				// service is not "listening" in the property's sense - registrations are accepted
+				bl := vnet.NewListener(fmt.Sprintf("B%d", step))
+				vsched.ListenHook = func(network, address string) (interface{}, error) { return bl, nil }
+				if err := s.Bind(ctx, "unix:@vx13b"); err != nil {
+					fail("step %d: Bind: %v", step, err)
+				}
 			case op == "badlisten":
 				// serving attempts that fail at once (strings the library refuses): the service stays as it was
 				for _, a := range []string{"bogus:x", "nocolon", "unix:"} {
@@ -709,6 +717,11 @@ func scenariosC13(tier string) []Scen {
 	rec([]string{"serve", "conn", "shutdown"}, false, true)
 	base = 4
 	rec([]string{"reg:a.b:d1", "serve", "conn", "shutdown"}, false, true)
+	// a service that was bound but never served (then shut down), then every continuation
+	base = 1
+	rec([]string{"bindonly"}, false, false)
+	base = 2
+	rec([]string{"bindonly", "shutdown"}, false, false)
 	// a service whose first serving attempts failed (refused address), then every continuation
 	base = 1
 	rec([]string{"badlisten"}, false, false)
